@@ -355,3 +355,44 @@ prop('C09',
      level_text=("Round-trip/differential testing of both tileset encodings against an independent encoder of the custom format, over generated pictures; exploration."),
      technique="round-trip + differential property-based testing against an independent format encoder (rapidcheck + libFuzzer), signature and header-field sweeps",
      design_ref="DESIGN.md section 3, C09")
+
+prop('C10',
+     quick=dict(sweep=True, pbt=(20000, 900, 10), fuzz=(60000, 900, 5)),
+     thorough=dict(sweep=True, pbt=(800000, 1200, 11), fuzz=(4000000, 1200, 5), stage_timeout=3400),
+     floor=dict(quick=30000, thorough=800000), alloc_cap_mb=64,
+     rule=("Logical PRT structures decoded from a tape and serialised by an independent encoder: 0..3 palettes (pseudo-random 1024 bytes; section headers canonical or, one in five, non-canonical but "
+           "accepted: lengths satisfying the sum rule, arbitrary remaining-tag count), 0..12 images (palette index < count, scan line = width rounded up to 4, widths {0,1,3,4,5,31..33,640,"
+           "0xFFFFFFF9,0xFFFFFFFC,random<2000}), 0..5 animations with 0..6 frames in every combination of the two optional-data flags, layer lists of 0..3 or {0,1,64,126,127} entries, unknown "
+           "container 0..5, arbitrary unknown-animation count. Oracle: Read result deep-equals the logical structure (memory red-green-blue where the file is blue-green-red) and satisfies the "
+           "cross-field rules evaluated in 64-bit arithmetic; Write leaves the source object unchanged; written bytes == input bytes when the palette headers are canonical (else == canonical "
+           "re-encoding); Read(Write(a)) equal; second write byte-identical. One case in eight feeds Read a violating input (palette index >= count, wrong scan line, width 0xFFFFFFFD..FF with "
+           "wrapped scan line 0, header frame/layer totals off by one, palette lengths not adding up) and one in eight gives Write a violating structure (index == count, wrong scan line, width "
+           "0xFFFFFFFE/scan line 0, layer list longer than its count): both must throw. Sweep: 4 flag combinations x every layer count 0..127 inside a three-frame animation; palettes 0..3 x "
+           "images 0..2 x animations 0..2 with every violating variant. Non-trivial = >=1 frame with >=1 layer and >=1 optional flag set, and every violating case."),
+     sweep_what="flag combinations x layer counts 0..127; empty-table combinations with all violating read/write variants",
+     assumptions=["the trivially-true 'unknown count' check is not asserted"],
+     title="PRT sprite metadata round-trips and always satisfies its cross-field rules",
+     level_text=("Round-trip, byte-stability and rule-enforcement properties over generated PRT structures with an independent encoder and 64-bit rule evaluation, under ASan/UBSan; exploration."),
+     technique="round-trip property-based testing against an independent PRT encoder with a 64-bit cross-field oracle (rapidcheck + libFuzzer), layer/flag sweep",
+     design_ref="DESIGN.md section 3, C10")
+
+prop('C11',
+     quick=dict(sweep=True, pbt=(12000, 500, 10), fuzz=(150000, 1400, 5)),
+     thorough=dict(sweep=True, pbt=(400000, 700, 10), fuzz=(10000000, 2000, 6), stage_timeout=3400),
+     floor=dict(quick=40000, thorough=1000000), alloc_cap_mb=64, case_timeout=60,
+     rule=("Three loaders (BitmapFile::ReadIndexed, Tileset::ReadTileset in both formats, ArtFile::Read) fed with: sweep - 4 reference-encoded seed files per loader: the intact file must load, every "
+           "proper prefix must be refused, every header field x 33 boundary values (0,1,..,40,54,..,2^15,2^16,0x7FFFFFE0,2^31-1,2^31,2^31+1,0xFFFFFFE0,0xFFFFFFF8,0xFFFFFFFC,2^32-1,v+-1); "
+           "constructed wrap-around bitmaps: for depths 1/4/8, widths -1..-64, INT32_MIN..INT32_MIN+3, -65536, -2^28 and heights +-1..64, +-2^7..2^30, INT32_MIN, INT32_MAX, 0, every pair whose pitch x "
+           "|height| is <= 4096 modulo 2^64 (pitch computed as a 64-bit size_t product on the sign-extended width) is emitted with exactly that many pixel bytes so the size cross-check passes; "
+           "extreme heights with small widths; custom tileset pixel heights around 2^31 and 2^32 with matching data lengths modulo 2^32; PRT counts replaced by values near 2^32 and by values whose "
+           "product with the record size wraps. pbt/fuzz: a seed file + 1..3 mutations (field boundary value, truncation, byte, append) and raw bytes per loader from the seed corpus (libFuzzer). On "
+           "every accepted object the follow-up operations run under ASan/UBSan: Validate, AbsoluteHeight, WriteIndexed (stream and file), InvertScanLines x2, SwapRedAndBlue, WriteCustomTileset, the "
+           "Verify* helpers; for PRT: Write, the 64-bit cross-field rules, VerifyImageIndexInBounds for 0, n-1, n, n+1, 2^64-1 (must refuse >= n) and SpriteLoader::ExtractImage for every index "
+           "0..n+1 and 2^64-1 against pixel files of length 0, 100, header+64 and header+70000 (indices >= n must be refused). Oracle: no sanitizer report, no hang, only std::exception, prefixes "
+           "refused. Non-trivial = the loader accepts and follow-ups run, or rejection of an input longer than the first header."),
+     sweep_what="prefixes and (field x boundary) tables of 12 seed files; all wrap-around (width,height) pairs passing the size cross-check modulo 2^64; tileset heights at the sign boundary; PRT counts near 2^32",
+     assumptions=["allocation requests above 64 MiB fail with std::bad_alloc", "UBSan's alignment, nonnull-attribute and null-reference checks are off (DESIGN.md 2.2)"],
+     title="Bitmap, tileset and PRT loaders are safe on arbitrary bytes; results safe to use",
+     level_text=("Fault-injection sweeps incl. arithmetic-solved wrap-around inputs, structure-aware and raw coverage-guided fuzzing with follow-up operations on every accepted object under ASan/UBSan; exploration."),
+     technique="coverage-guided + structure-aware fuzzing (libFuzzer, rapidcheck mutation plans), modular-arithmetic input construction, exhaustive prefix/field sweeps, ASan/UBSan",
+     design_ref="DESIGN.md section 3, C11")
